@@ -200,6 +200,14 @@ func (e *Engine) checkC01(st *Step) {
 			}
 		}
 	}
+	// placeholder replacement on the placeholder's own node: the real allocation may not take more than the placeholder
+	if (st.Op.Kind == OpConfirm || st.Op.Kind == OpDupConfirm || st.Op.Kind == OpReconfirm) && st.Op.Term == "PLACEHOLDER_REPLACED" {
+		for id, n := range w.Nodes {
+			if pn := st.Pre.Nodes[id]; pn != nil && !res.LessEq(n.Allocated, pn.Allocated) {
+				e.violate("C01", "replacement-grows-node", "", fmt.Sprintf("node %s allocated grew from %s to %s when the replacement of placeholder %s was confirmed (available now %s)", id, pn.Allocated, n.Allocated, st.Op.Key, n.Available))
+			}
+		}
+	}
 	// ledger at every quiescent point
 	for id, n := range w.Nodes {
 		e.obs("c01.ledger_checks", 1)
